@@ -179,9 +179,9 @@ func replay(args []string) {
 		Seed      int64  `json:"seed"`
 		Tier      string `json:"tier"`
 		Replay    struct {
-			Spec  *spec.Spec         `json:"spec"`
-			Cfg   Cfg                `json:"cfg"`
-			Behav vproto.Behaviours  `json:"behav"`
+			Spec  *spec.Spec        `json:"spec"`
+			Cfg   Cfg               `json:"cfg"`
+			Behav vproto.Behaviours `json:"behav"`
 			Crash *struct {
 				Point string `json:"point"`
 				Who   string `json:"who"`
